@@ -248,10 +248,10 @@ PROPS = {
         trusted=LOG_TRUSTED, assumptions=["each storage operation is atomic and persisted in issue order"],
     ),
     "C07": dict(
-        theorems=["HC.C07.torn_atomic", "HC.C07.torn_atomic_from", "HC.C07.torn_then_continue", "HC.C07.torn_entry_ignored", "HC.C07.readEntries_stops", "HC.C07.torn_header_falls_back", "HC.C07.replica_torn_commit_point_partial", "HC.C07.replica_torn_header", "HC.C07.replica_blockgrow_torn_commit_point", "HC.C07.replica_torn_flush", "HC.C07.replica_torn_flush_first", "HC.C07.replica_torn_flush_blockgrow", "HC.C07.torn_flush_of_ok"],
+        theorems=["HC.C07.torn_atomic", "HC.C07.torn_atomic_from", "HC.C07.torn_then_continue", "HC.C07.torn_entry_ignored", "HC.C07.readEntries_stops", "HC.C07.torn_header_falls_back", "HC.C07.replica_torn_commit_point_partial", "HC.C07.replica_torn_header", "HC.C07.replica_blockgrow_torn_commit_point", "HC.C07.replica_torn_flush", "HC.C07.replica_torn_flush_first", "HC.C07.replica_torn_flush_blockgrow", "HC.C07.torn_flush_of_ok", "HC.C07.torn_header_of_ok", "HC.C07.torn_commit_of_ok", "HC.C07.replica_first_torn", "HC.C07.replica_blockgrow_torn_header"],
         bridge_modules=["HC.Bridge.Oplog", "HC.Bridge.Order"], bridging=OPLOG_BRIDGE + ORDER_BRIDGE,
         runs=_c07_runs,
-        partial="proved on the model (torn_atomic): after any history of calls and reopen steps of a writer core, for any further append_batch/clear/make_read_only/read, any storage operation k of it and any number t of bytes of that write that arrive, Hypercore::new succeeds and the recovered core represents the log before or after the call and stays usable; torn data, bitfield-page, tree-node and log-entry writes need no assumption, a torn header write assumes that the checksum rejects the half-written slot (CrcDetects, evaluated by the harness on every torn state it generates). On a replica (replica_torn_commit_point_partial): a torn write of the block's bytes or of the oplog entry of any honest proof application recovers to exactly the state before the application (the entry write is the commit point; no checksum assumption); a torn header write of the replica's periodic flush (all pages and nodes written; CrcDetects assumed) recovers to the state after the application (replica_torn_header). Torn page and node writes inside the periodic flush of a replica (replica_torn_flush): if the k-th dirty page or (all pages written) the k-th unflushed node reaches its store only as a byte prefix, Hypercore::new succeeds and shows the replica exactly as the completed application leaves it (length, byte length, every held block byte-identical, has, exact contiguous length) - a half-written page holds bit by bit the old or the new value, which the replay of the old header's entries tolerates; a half-written node is one the replayed entries re-insert into the unflushed map, which shadows the store. Not proved (run only): that the ghost invariant for FURTHER crashes holds again after such a recovery (the stores are then not whole pages / whole slots until rewritten: the store's size is not a multiple of the page / node size).",
+        partial="proved on the model (torn_atomic): after any history of calls and reopen steps of a writer core, for any further append_batch/clear/make_read_only/read, any storage operation k of it and any number t of bytes of that write that arrive, Hypercore::new succeeds and the recovered core represents the log before or after the call and stays usable; torn data, bitfield-page, tree-node and log-entry writes need no assumption, a torn header write assumes that the checksum rejects the half-written slot (CrcDetects, evaluated by the harness on every torn state it generates). On a replica (replica_torn_commit_point_partial): a torn write of the block's bytes or of the oplog entry of any honest proof application recovers to exactly the state before the application (the entry write is the commit point; no checksum assumption); a torn header write of the replica's periodic flush (all pages and nodes written; CrcDetects assumed) recovers to the state after the application (replica_torn_header). The same for first contact (replica_first_torn) and for block+upgrade proofs (replica_blockgrow_torn_commit_point, replica_blockgrow_torn_header); torn_commit_of_ok / torn_header_of_ok / torn_flush_of_ok state all three for every exchange step. Torn page and node writes inside the periodic flush of a replica (replica_torn_flush, replica_torn_flush_first, replica_torn_flush_blockgrow): if the k-th dirty page or (all pages written) the k-th unflushed node reaches its store only as a byte prefix, Hypercore::new succeeds and shows the replica exactly as the completed application leaves it (length, byte length, every held block byte-identical, has, exact contiguous length) - a half-written page holds bit by bit the old or the new value, which the replay of the old header's entries tolerates; a half-written node is one the replayed entries re-insert into the unflushed map, which shadows the store. Not proved (run only): that the ghost invariant for FURTHER crashes holds again after such a recovery (the stores are then not whole pages / whole slots until rewritten: the store's size is not a multiple of the page / node size).",
         rule="as C02, and for every crash point whose next operation is a write: every proper byte prefix (writes <= 64 bytes) or cuts at 1,3,4,5,7,8,9,12, half, last byte, every 512 bytes and 4 seeded cuts",
         trusted=LOG_TRUSTED, assumptions=["CrcDetects: a torn header slot does not pass the checksum unless it equals the old or the new frame"],
     ),
